@@ -44,6 +44,7 @@ func cmdFunc(args []string) {
 	timeout := fs.Int("t", 10, "solver timeout (s)")
 	keep := fs.String("keep", "", "directory to keep SMT files in")
 	verbose := fs.Bool("v", false, "print notes and models")
+	only := fs.String("only", "", "solve only obligations whose name contains this substring")
 	fs.Parse(args)
 	p, err := loadProgram(*repo)
 	if err != nil {
@@ -69,7 +70,11 @@ func cmdFunc(args []string) {
 		}
 		frs = append(frs, p.verifyFuncViews(n)...)
 	}
-	dischargeAll(frs, dir, *timeout, runtime.NumCPU(), nil)
+	var flt func(*Obl) bool
+	if *only != "" {
+		flt = func(o *Obl) bool { return strings.Contains(o.Name, *only) }
+	}
+	dischargeAll(frs, dir, *timeout, runtime.NumCPU(), flt)
 	bad := 0
 	for _, fr := range frs {
 		fmt.Printf("== %s: %d obligations\n", fr.Name, len(fr.Obls))
@@ -83,6 +88,9 @@ func cmdFunc(args []string) {
 			}
 		}
 		for _, o := range fr.Obls {
+			if flt != nil && !flt(o) {
+				continue
+			}
 			status := "ok"
 			if o.Cover {
 				if o.Result != "sat" {
